@@ -1,3 +1,105 @@
 import VpnCloud.Model.Core
+import VpnCloud.Spec.C04
+import VpnCloud.Proofs.Lemmas.CoreLemmas
+import VpnCloud.Proofs.C04
+import VpnCloud.Proofs.C03
+/-
+  C02 — authenticated framing: round trip, and everything that is accepted is genuine (so tampering,
+  truncation, reflection and cross-connection datagrams are rejected, leaving no state behind).
+  All statements are proved as given (no hypothesis added).
+-/
 namespace VpnCloud.Proofs.C02
+
+open VpnCloud VpnCloud.Spec.C04
+open VpnCloud.Proofs.CoreLemmas
+
+/-- `base half + v` is a proper 96-bit nonce when `v < 2^95` -/
+theorem base_add_lt (half : Bool) (v : Nat) (hv : v < 2 ^ 95) : base half + v < NONCE_MOD := by
+  rw [pow95] at hv
+  rw [nonce_mod_eq]
+  cases half <;> simp only [base, half_eq, if_true, Bool.false_eq_true, if_false] <;> omega
+
+/-- **roundtrip**: sender and receiver hold the same key in the sender's current slot, opposite halves, receiver window floor not above the
+    nonce, counter within 56 bits: the receiver gets exactly the plaintext, for every payload -/
+theorem roundtrip (s r : Core) (p : Bytes) (ks kr : SlotKey) (v : Nat)
+    (hs : s.slots[s.cur]? = some ks) (hr : r.slots[s.cur]? = some kr) (hcur : s.cur < 4) (hkey : kr.key = ks.key)
+    (hhalf : r.half = !s.half) (hsend : ks.send + 1 = base s.half + v) (hv : v < 2 ^ 56) (hmin : kr.min ≤ ks.send + 1) :
+    (r.decrypt (s.encrypt p).2).2 = .ok p := by
+  have hv95 : v < 2 ^ 95 := by rw [pow56] at hv; rw [pow95]; omega
+  have hlt : ks.send + 1 < NONCE_MOD := by rw [hsend]; exact base_add_lt _ _ hv95
+  have hhalf' : s.half = !r.half := by rw [hhalf, Bool.not_not]
+  have hrec : r.reconstruct (Bytes.beVal (Bytes.ofBE 7 (ks.send + 1))) = ks.send + 1 :=
+    (C04.reconstruct_iff r (ks.send + 1) v (by rw [hsend, hhalf']) hv95).2 hv
+  rw [(C04.encrypt_spec s p ks hs hlt).1]
+  obtain ⟨f1, f2, f3⟩ := C04.sealed_fields s.cur (ks.send + 1) (.sealed ks.key (ks.send + 1) p)
+  rw [← beVal_ofBE7] at f2
+  have hd := (C03.decrypt_authentic r _ kr p (by rw [f3]; simp only [Body.len, Generated.TAG_LEN]; omega)
+    (by rw [f1]; exact hcur) (by rw [f1]; exact hr) (by rw [f2, hrec, hkey])).1
+  rw [f2, hrec] at hd
+  exact (hd hmin).1
+
+/-- non-vacuity: a fresh pair of cores, three payloads in a row -/
+example : ((Core.new 7 false 8 [0, 0, 0, 0]).decrypt ((Core.new 7 true 9 [5, 6, 7, 8]).encrypt [1, 2, 3]).2).2 = .ok [1, 2, 3] := by
+  decide
+
+/-- **accepted_is_genuine**: whatever is accepted was sealed under the key of the addressed slot with exactly the reconstructed nonce and
+    carries exactly the sealed plaintext (so any alteration of key id, counter, ciphertext or tag, and any truncation, is rejected) -/
+theorem accepted_is_genuine (c : Core) (d : Dgram) (p : Bytes) (h : (c.decrypt d).2 = .ok p) :
+    d.len ≥ 24 ∧ d.keyId < 4 ∧ ∃ k, c.slots[d.keyId]? = some k ∧ d.body = .sealed k.key (c.reconstruct d.counter) p := by
+  rcases decrypt_cases c d with ⟨e, he⟩ | ⟨k, p', hlen, hid, hk, _, hb, hd⟩
+  · rw [he] at h; cases h
+  · rw [hd] at h
+    simp only [Except.ok.injEq] at h
+    exact ⟨hlen, hid, k, hk, by rw [hb, h]⟩
+
+/-- a rejected datagram leaves no state behind -/
+theorem reject_no_state (c : Core) (d : Dgram) (e : CoreErr) (h : (c.decrypt d).2 = .error e) : (c.decrypt d).1 = c := by
+  rcases decrypt_cases c d with ⟨e', he⟩ | ⟨k, p', _, _, _, _, _, hd⟩
+  · rw [he]
+  · rw [hd] at h; cases h
+
+/-- tampered ciphertext / tag (any body that is not an intact seal) is rejected -/
+theorem garbage_rejected (c : Core) (hdr : Bytes) (n : Nat) : ∃ e, (c.decrypt { hdr := hdr, body := .garbage n }).2 = .error e := by
+  rcases decrypt_cases c { hdr := hdr, body := .garbage n } with ⟨e, he⟩ | ⟨k, p', _, _, _, _, hb, _⟩
+  · exact ⟨e, by rw [he]⟩
+  · cases hb
+
+/-- **reflection_rejected**: a datagram reflected back to its own sender is rejected (its nonce lies in the sender's own half) -/
+theorem reflection_rejected (c : Core) (p : Bytes) (k : SlotKey) (v : Nat) (hk : c.slots[c.cur]? = some k)
+    (hsend : k.send + 1 = base c.half + v) (hv : v < 2 ^ 95) :
+    ∃ e, ((c.encrypt p).1.decrypt (c.encrypt p).2).2 = .error e := by
+  have hlt : k.send + 1 < NONCE_MOD := by rw [hsend]; exact base_add_lt _ _ hv
+  obtain ⟨e2, e1⟩ := C04.encrypt_spec c p k hk hlt
+  rw [e2]
+  apply C04.decrypt_wrong_nonce _ _ k.key (k.send + 1) p rfl
+  rw [(C04.sealed_fields c.cur (k.send + 1) _).2.1, C04.reconstruct_eq, e1]
+  show k.send + 1 ≠ base (!c.half) + (k.send + 1) % 2 ^ 56
+  have hm := Nat.mod_lt (k.send + 1) (show 2 ^ 56 > 0 by decide)
+  rw [hsend] at hm ⊢
+  rw [pow95] at hv
+  rw [pow56] at hm
+  cases c.half <;> simp only [base, half_eq, Bool.not_true, Bool.not_false, if_true, Bool.false_eq_true, if_false] at hm ⊢ <;> omega
+
+/-- non-vacuity: the datagram a core just produced, fed back to the same core -/
+example : (((Core.new 7 true 9 [5, 6, 7, 8]).encrypt [1, 2, 3]).1.decrypt ((Core.new 7 true 9 [5, 6, 7, 8]).encrypt [1, 2, 3]).2).2
+    = .error .openFailed := by
+  decide
+
+/-- a datagram sealed for a different connection (different key in the addressed slot) is rejected -/
+theorem cross_connection_rejected (c : Core) (d : Dgram) (k : SlotKey) (key n : Nat) (p : Bytes)
+    (hk : c.slots[d.keyId]? = some k) (hb : d.body = .sealed key n p) (hne : key ≠ k.key) :
+    ∃ e, (c.decrypt d).2 = .error e := by
+  rcases decrypt_cases c d with ⟨e, he⟩ | ⟨k', p', _, _, hk', _, hb', _⟩
+  · exact ⟨e, by rw [he]⟩
+  · rw [hk] at hk'
+    cases hk'
+    rw [hb] at hb'
+    cases hb'
+    exact absurd rfl hne
+
+/-- non-vacuity: same nonce, other key -/
+example : ((Core.new 7 false 8 [0, 0, 0, 0]).decrypt { hdr := 0 :: Bytes.ofBE 7 (HALF + 6), body := .sealed 9 (HALF + 6) [1] }).2
+    = .error .openFailed := by
+  decide
+
 end VpnCloud.Proofs.C02
